@@ -747,9 +747,9 @@ def classify_missing(spec, f):
     removed = [(e, sc) for e, sc in h if e != "sub"]
     if n_sub > 1 and removed:
         how, sc = removed[-1]
-        return f"silenced:same-callable-subscribed-more-than-once:after-{sc}-subscription-{how}"
+        return f"silenced:shared-callable:{sc}-token-{how}"
     if n_sub > 1:
-        return "silenced:same-callable-subscribed-more-than-once"
+        return "silenced:shared-callable"
     return "silenced:single-subscription"
 
 
@@ -758,7 +758,7 @@ def classify_extra(spec, f):
     removed = [(e, sc) for e, sc in h if e != "sub"]
     if removed:
         how, sc = removed[-1]
-        return f"leaked:{sc}-subscription-still-called-after-{how}"
+        return f"leaked:{sc}-token-{how}"
     return "leaked:never-subscribed"
 
 
